@@ -50,8 +50,31 @@ static const double f_pool[] = { 0.5e9, 1e9, 2e9, 3e9, 4e9, 8e9, 16e9 };
 #define N_F ((int)(sizeof(f_pool) / sizeof(f_pool[0])))
 #define N_PROBE 6		/* ids 0..5 are probed after every call (ProbeF) */
 
-static const char *name_pool[] = { "a", "b", "c" };
-#define N_NAMES 3
+/*
+ * Calibration names (interned as "c<index>"): proper prefixes / suffixes of
+ * each other, case, leading / trailing / inner spaces, a lone space, two
+ * names longer than 256 bytes that differ in their last byte, UTF-8, YAML
+ * significant characters.  The first N_ADD_NAMES are given to
+ * add_calibration; the rest (extensions / truncations of stored names) are
+ * only ever looked up.  CalStoreTrace's NamePool lists the same ids.
+ */
+#define LONG300 \
+    "LLLLLLLLLLLLLLLLLLLLLLLLLLLLLLLLLLLLLLLLLLLLLLLLLLLLLLLLLLLLLLLLLLLLLLLLLLL" \
+    "LLLLLLLLLLLLLLLLLLLLLLLLLLLLLLLLLLLLLLLLLLLLLLLLLLLLLLLLLLLLLLLLLLLLLLLLLLL" \
+    "LLLLLLLLLLLLLLLLLLLLLLLLLLLLLLLLLLLLLLLLLLLLLLLLLLLLLLLLLLLLLLLLLLLLLLLLLLL" \
+    "LLLLLLLLLLLLLLLLLLLLLLLLLLLLLLLLLLLLLLLLLLLLLLLLLLLLLLLLLLLLLLLLLLLLLLLLLLL"
+static const char *name_pool[] = {
+    "ch1", "ch10", "ch100", "1ch", "CH1", "ch1 ", " ch1", "ch 1", " ",
+    LONG300 "a", LONG300 "b", "ch\xc3\xa9", "k: v", "#x", "- i", "\"q'",
+    "ch", "ch1000", "c", LONG300,
+};
+#define N_ADD_NAMES 16
+#define N_NAMES ((int)(sizeof(name_pool) / sizeof(name_pool[0])))
+
+/* names for add_calibration: half of the draws from the closely related
+ * first six, so that replace-by-name stays frequent */
+#define ADD_NAME(rng) (vt_below(rng, 2) ? vt_below(rng, 6) : \
+	vt_below(rng, N_ADD_NAMES))
 static const char *pkey_pool[] = { "ka", "kb", "kc" };
 #define N_PKEYS 3
 static const char *pval_pool[] = { "x", "y", "z=1", "w 2" };
@@ -442,6 +465,10 @@ static void project_store(vinfo_t *v)
 	project_prop(vcp, ci, "", 0);
 	vt_put("}");
     }
+    vt_put("],\"find\":[");
+    for (int i = 0; i < N_NAMES; ++i)
+	vt_put("%s%d", i ? "," : "", LIB(vnacal_find_calibration(vcp,
+			name_pool[i])));
     vt_put("],\"gprops\":");
     project_prop(vcp, -1, "", 0);
     vt_put(",\"pv\":[");
@@ -1624,7 +1651,7 @@ static void progress(vinfo_t *v, ninfo_t *n, vt_rng_t *rng)
     else if (!n->solved)
 	op_solve(v, n);
     else if (vt_below(rng, 4) != 0)
-	op_add_calibration(v, n, vt_below(rng, N_NAMES));
+	op_add_calibration(v, n, ADD_NAME(rng));
     else
 	(void)add_useful(v, n, n->id & 1, 0);
 }
@@ -1777,7 +1804,7 @@ static void random_step(vt_rng_t *rng, int *variant)
 	if (nl > 1 && vt_below(rng, 8) == 0)
 	    tv = live[vt_below(rng, nl)];
 	if (n != NULL)
-	    op_add_calibration(tv, n, vt_below(rng, N_NAMES));
+	    op_add_calibration(tv, n, ADD_NAME(rng));
     } else if (r < 775) {
 	op_delete_calibration(v, pick_ci(v, rng));
     } else if (r < 800) {
@@ -2040,7 +2067,7 @@ static void bulk_case(vt_rng_t *rng)
     op_solve(v, na);
     for (int i = 0; i < nunk; ++i)
 	op_get_parameter_value(v, unk[i], na->grid[vt_below(rng, 2)]);
-    op_add_calibration(v, na, vt_below(rng, N_NAMES));
+    op_add_calibration(v, na, ADD_NAME(rng));
 
     /* a second vnacal_new_t solves the same unknowns on another grid */
     do {
@@ -2067,7 +2094,7 @@ static void bulk_case(vt_rng_t *rng)
 	    op_get_parameter_value(v, unk[i], nb->grid[vt_below(rng, nb->nf)]);
 	    op_get_parameter_value(v, unk[i], na->grid[vt_below(rng, 2)]);
 	}
-	op_add_calibration(v, nb, vt_below(rng, N_NAMES));
+	op_add_calibration(v, nb, ADD_NAME(rng));
 	if (vt_below(rng, 2) == 0) {
 	    op_solve(v, na);		/* and back: the latest solve wins */
 	    for (int i = 0; i < nunk; ++i)
@@ -2208,7 +2235,7 @@ static void chain_case(vt_rng_t *rng)
 	    op_get_parameter_value(v, fresh[i], band[vt_below(rng, 2)]);
     }
     if (vt_below(rng, 2))
-	op_add_calibration(v, na, vt_below(rng, N_NAMES));
+	op_add_calibration(v, na, ADD_NAME(rng));
     for (int i = 0; i < 10; ++i) {
 	int variant = 0;
 
@@ -2270,8 +2297,14 @@ static void shape_case(long c)
     int c0, c1;
 
     op_create(0);
-    c0 = shape_new(v, (int)c, 0);
-    c1 = shape_new(v, (int)((c + 53) % N_SHAPE_CASES), 1);
+    {
+	int n0 = (int)(c % N_ADD_NAMES);
+	int n1 = (n0 + 1 + (int)(c / N_ADD_NAMES) % (N_ADD_NAMES - 1)) %
+	    N_ADD_NAMES;
+
+	c0 = shape_new(v, (int)c, n0);
+	c1 = shape_new(v, (int)((c + 53) % N_SHAPE_CASES), n1);
+    }
     op_get(v, W_COLS, c1 >= 0 ? c1 + 1 : 0);
     if (c0 >= 0) {
 	op_save_load(v, 1);
